@@ -82,6 +82,12 @@ MANUAL = {
     "AttributeKind": "s_attribute_kind", "YearMonth": "s_year_month", "Network": "(SEnum 2)", "did::Network": "(SEnum 2)",
     "WasmVersion": "(SRefine (PLe 1) SU32)", "ModuleSource": "(SBytes BE 4 MAX_WASM_MODULE_SIZE)", "TokenId": "s_token_id",
     "chrono::DateTime<chrono::Utc>": "s_datetime_utc", "RawCbor": "(SBytes BE 4 4294967295)",
+    # opaque fixed-size leaves without a validity condition (secret keys are raw byte arrays): abstract fixed-length byte leaves
+    "ed25519_dalek::SecretKey": "(SRaw 32)", "ecvrf::SecretKey": "(SRaw 32)",
+    # foreign arkworks group behind the `Group` alias of encrypted_transfers/ffi.rs = ArCurve
+    "ArkGroup<G1Projective>": "(SOpaque 48 K_G1)",
+    # hand-written three-variant sum of web3id/mod.rs (tags written by the impl: 0 String, 1 Numeric, 2 Timestamp)
+    "Web3IdAttribute": "(SSum [(0, s_attribute_kind); (1, SU64); (2, s_timestamp)])",
     "AccountOwnershipProof": "(SRefine (PAnd (PLenGe 1) PSortedKeys) (SVec BE 1 (STuple [{KeyIndex}; {AccountOwnershipSignature}])))",
 }
 # generic types with hand-written impls: name -> (parameters, term with {Type} placeholders)
@@ -97,6 +103,11 @@ GENERIC_MANUAL = {
     "AtomicProof": (["C", "AttributeType"],
         "(SSum [(0, (STuple [{AttributeType}; {crate::sigma_protocols::common::SigmaProof<dlog::Response<C>>}])); (1, {RangeProof<C>}); "
         "(2, {SetMembershipProof<C>}); (3, {SetNonMembershipProof<C>})])"),
+    # id/types.rs: hand-written straight-line impl (regenerated from the impl bodies by translators/gen_manual_impls.py
+    # and proved equal there: Chain/ManualTie.v)
+    "PreIdentityProof": (["P", "C"],
+        "(STuple [{Challenge}; {dlog::Response<C>}; {com_eq::Response<C>}; {com_eq_different_groups::Response<P::G1, C>}; "
+        "{com_eq::Response<C>}; {AccountOwnershipProof}; {Vec<RangeProof<C>>}])"),
     "AccountCredential": (["P", "C", "AttributeType"],
         "(SSum [(0, {InitialCredentialDeploymentInfo<C, AttributeType>}); (1, {CredentialDeploymentInfo<P, C, AttributeType>})])"),
 }
@@ -111,6 +122,13 @@ HASH_RE = re.compile(r"^(hashes::)?\w*Hash$|^HashBytes<.*>$")
 # generic instantiations to translate: (type name, {param: concrete}) -> output name
 INSTANCES_UNUSED = [("Cipher", {"C": "ArCurve"}), ("EncryptedAmount", {"C": "ArCurve"}), ("Commitment", {"C": "ArCurve"}),
              ("PublicKey__elgamal_public", {"C": "ArCurve"})]
+
+# bare generic wrappers that no derived type references: instantiations at which they are exercised against the code
+EXTRA_INSTANCES = {
+    "AndResponse": [{"R1": "dlog::Response<ArCurve>", "R2": "com_eq::Response<ArCurve>"}],
+    "ReplicateResponse": [{"R": "com_enc_eq::Response<ArCurve>"}],
+    "ReplicatePoints": [{"P": "ArCurve"}],
+}
 
 # translated types that cannot be named from outside the crate (private module / item) or whose values need
 # crate-internal invariants: they keep their generated term and theorem but are not exercised by the harness
@@ -136,6 +154,9 @@ LAYOUT = {  # derived Serial, hand-written Deserial: same layout once refinement
     "HigherLevelAccessStructure": "s_higher_level_access_structure",
 }
 del EQUAL["ContractAddressG"]
+
+
+OTHER_MACRO = []
 
 
 def strip_comments(src):
@@ -235,6 +256,7 @@ def scan(repo):
     """All items with the crate's Serial/Deserial derives (name -> decl dict) and per-file imports / type aliases."""
     decls = {}
     finfo = {}
+    del OTHER_MACRO[:]
     files = sorted(glob.glob(os.path.join(repo, SRC, "**", "*.rs"), recursive=True))
     if not files:
         raise TranslateError("no sources under %s" % os.path.join(repo, SRC))
@@ -245,6 +267,7 @@ def scan(repo):
             src = src[:cut.start()]
         rel = os.path.relpath(f, os.path.join(repo, SRC))
         finfo[rel] = {"uses": parse_uses(src), "aliases": parse_type_aliases(src)}
+        other_macro = "concordium_contracts_common" in finfo[rel]["uses"].get("Serialize", [])
         for m in re.finditer(r"\b(struct|enum)\s+([A-Z]\w*)", src):
             # attributes immediately before (walk back over `pub`, attributes)
             k = m.start()
@@ -278,6 +301,10 @@ def scan(repo):
             ser, des = bool(derives & SER_TOKENS), bool(derives & DES_TOKENS)
             if not (ser or des):
                 continue
+            if other_macro:
+                # `Serialize` here is concordium_contracts_common's derive (little endian, Option supported): another macro
+                OTHER_MACRO.append("%s (%s)" % (m.group(2), rel))
+                continue
             kind, name = m.group(1), m.group(2)
             i = m.end()
             generics = ""
@@ -292,6 +319,7 @@ def scan(repo):
             while src[body_start] not in "{(;":
                 body_start += 1
             d = {"name": name, "kind": kind, "file": rel, "generics": [g.split(":")[0].strip() for g in split_top(generics)] if generics else [],
+                 "bounds": {g.split(":")[0].strip(): (g.split(":", 1)[1].strip() if ":" in g else "") for g in split_top(generics)} if generics else {},
                  "serial": ser, "deserial": des, "pub": bool(re.search(r"\bpub\s*$", src[:k].rstrip()[-4:] + " ") or re.search(r"pub\s+$", src[max(0, k - 8):k]))}
             if kind == "struct":
                 if src[body_start] == "{":
@@ -384,7 +412,8 @@ ASSOC = {("ArCurve", "Scalar"): "Fr", ("BlsG2", "Scalar"): "Fr", ("IpPairing", "
          ("IpPairing", "G2"): "BlsG2", ("Fr", "Scalar"): "Fr"}
 CONCRETE_RUST = {"ArCurve": "concordium_base::id::constants::ArCurve", "IpPairing": "concordium_base::id::constants::IpPairing",
                  "AttributeKind": "concordium_base::id::constants::AttributeKind", "AttributeTag": "concordium_base::id::types::AttributeTag",
-                 "BlsG2": "concordium_base::id::constants::BlsG2", "Fr": "concordium_base::id::constants::BaseField", "()": "()"}
+                 "BlsG2": "concordium_base::id::constants::BlsG2", "Fr": "concordium_base::id::constants::BaseField", "()": "()",
+                 "Web3IdAttribute": "concordium_base::web3id::Web3IdAttribute"}
 
 
 class Translator:
@@ -398,6 +427,7 @@ class Translator:
         self.errors = {}      # output name -> reason
         self.inst = {}        # output name -> (declaration name, generic environment)
         self.stack = []
+        self.param_tokens = set()   # tokens standing for the formal parameters of a schema functor (never instantiate with them)
         self.tokens = {}      # "@k" -> (coq term, label): generic arguments translated in the referring context
         self.modules = {x for f in finfo for x in f[:-3].split("/")}
         self.by_base = {}
@@ -532,9 +562,16 @@ class Translator:
         args = split_top(m.group(3)) if m.group(3) else []
         uses = self.finfo.get(ctxfile, {}).get("uses", {})
         # imported names / renames / module aliases of the referring file
-        if segs and segs[0] in uses and not (len(segs) == 1 and self.resolve([], segs[0], ctxfile) in
-                                             [k for k in self.by_base.get(segs[0], []) if self.decls[k]["file"] == ctxfile]):
+        def declared_here(nm):
+            try:
+                return self.resolve([], nm, ctxfile) in [k for k in self.by_base.get(nm, []) if self.decls[k]["file"] == ctxfile]
+            except TranslateError:
+                return False        # ambiguous without the import: the `use` decides
+        if segs and segs[0] in uses and not (len(segs) == 1 and declared_here(segs[0])):
             segs = uses[segs[0]] + segs[1:]
+        # a hand-written leaf of the referring file's own module tree (glob re-export `pub use self::secret::*`)
+        if len(segs) == 1 and not args and ctxfile and "/" in ctxfile and "%s::%s" % (ctxfile.split("/")[0], segs[0]) in MANUAL:
+            return self.template(MANUAL["%s::%s" % (ctxfile.split("/")[0], segs[0])], {}, owner, ctxfile)
         if len(segs) > 1 and "::".join(segs[-2:]) in MANUAL and not args:
             return self.template(MANUAL["::".join(segs[-2:])], {}, owner, ctxfile)
         if len(segs) > 1 and segs[0] not in INTERNAL_MODULES and segs[0] not in self.modules:
@@ -642,6 +679,8 @@ class Translator:
     def translate(self, name, env):
         d = self.decls[name]
         env = {k: self.concretize(v, {}) for k, v in env.items()}
+        if any(v in self.param_tokens for v in env.values()):
+            raise TranslateError("formal parameter passed on to another generic type (not a bare wrapper)")
         out = self.out_name(name, env)
         self.inst[out] = (name, dict(env))
         if out in self.done:
@@ -673,6 +712,43 @@ class Translator:
             raise
         finally:
             self.stack.pop()
+
+    def schema_params(self, d):
+        """Generic parameters that stand for an arbitrary serialisable type (bound mentions the crate's Serialize / Serial /
+        Deserial and no associated type of the parameter is used): the declaration is a bare generic wrapper."""
+        fs = d.get("fields") or [f for v in d.get("variants", []) for f in v["fields"]]
+        text = " ; ".join(f["type"] for f in fs)
+        real = [g for g in d["generics"] if not g.startswith("'")]
+        out = []
+        for g in real:
+            b = d.get("bounds", {}).get(g, "")
+            if re.search(r"\b(Serialize|Serial|Deserial)\b", b) and not re.search(r"\b%s::\w+" % re.escape(g), text):
+                out.append(g)
+        return out if real and len(out) == len(real) else None
+
+    def translate_parametric(self, name):
+        """Bare generic wrapper -> schema functor `gp_<Name> (X_P1 ... : schema) : schema` (Gen/ChainSchemasParam.v)."""
+        d = self.decls[name]
+        params = self.schema_params(d)
+        env = {}
+        for g in params:
+            tok = "@%d" % len(self.tokens)
+            self.tokens[tok] = ("X_" + g, g)
+            self.param_tokens.add(tok)
+            env[g] = tok
+        owner = "gp_" + name
+        if d["kind"] == "struct":
+            if d["shape"] == "unit":
+                raise TranslateError("derive on a unit struct panics in the macro")
+            term = self.fields_term(d["fields"], env, owner, d["file"])
+        else:
+            alts = []
+            for i, v in enumerate(d["variants"]):
+                alts.append("(%d, %s)" % (i, self.fields_term(v["fields"], env, owner, d["file"])))
+            term = "(SSum [%s])" % "; ".join(alts)
+        in_vec = [g for g in params if re.search(r"\((SVec|SMap|SSet) BE \d+ [^()]*\bX_%s\b" % g, term) or
+                  re.search(r"\((SVec|SMap|SSet) BE \d+ \([^()]*\bX_%s\b" % g, term)]
+        return params, term, in_vec
 
     def is_phantom_only(self, d, g):
         fs = d.get("fields") or [f for v in d.get("variants", []) for f in v["fields"]]
@@ -710,10 +786,21 @@ def generate(repo="/repo", out=None):
     decls, finfo = scan(repo)
     tr = Translator(decls, finfo)
     order = []
+    parametric = {}
     for name in sorted(decls):
         d = decls[name]
         real = [g for g in d["generics"] if not g.startswith("'")]
         try:
+            if real and tr.schema_params(d) is not None:
+                try:
+                    parametric[name] = tr.translate_parametric(name)
+                except TranslateError:
+                    pass                     # not a bare wrapper: translated at the on-chain instantiation below
+                else:
+                    if name in EXTRA_INSTANCES or tr.default_env(d) is None:
+                        for env0 in EXTRA_INSTANCES.get(name, []):
+                            tr.translate(name, dict(zip(real, tr.bind_args([env0[g] for g in real], name, "id/types.rs"))))
+                        continue
             env = tr.default_env(d)
             if env is None:
                 raise TranslateError("generic over %s: translated only where it is referenced with concrete arguments" % ", ".join(real))
@@ -750,16 +837,6 @@ def generate(repo="/repo", out=None):
         lines.append("(* %s  %s %s%s%s *)" % (d["file"], d["kind"], n, "" if d["serial"] else "  [Deserial only]", "" if d["deserial"] else "  [Serial derived, Deserial hand-written]"))
         lines.append("Definition g_%s : schema := %s." % (n, tr.done[n]))
     # table of the fully derived types that are not tied to a hand-written term
-    table = [n for n in both if n not in EQUAL and n not in SKIP_GLUE and decl_of(n).get("pub", True)
-             and all(tr.rust_type(v) for v in tr.inst[n][1].values())]
-    lines.append("")
-    lines.append("(** Fully derived types (Serial and Deserial both generated) without a hand-written term: registered for the")
-    lines.append("    correspondence run under the ids below. *)")
-    lines.append("Definition gen_schema_table : list (N * schema) :=")
-    lines.append("  [%s]." % ";\n   ".join("(%d, g_%s)" % (200 + i, n) for i, n in enumerate(table)))
-    lines.append("Definition gen_all : list schema := [%s]." % "; ".join("g_" + n for n in order))
-    lines.append("Definition gen_equal_pairs : list (schema * schema) := [%s]." % "; ".join("(g_%s, %s)" % (n, EQUAL[n]) for n in sorted(EQUAL)))
-    lines.append("Definition gen_layout_pairs : list (schema * schema) := [%s]." % "; ".join("(g_%s, %s)" % (n, LAYOUT[n]) for n in sorted(LAYOUT)))
     private_mods = set()
     for f in finfo:
         stem = f[:-3].split("/")
@@ -770,7 +847,7 @@ def generate(repo="/repo", out=None):
                 if not (mm.group(1) or "").startswith("pub") or "(" in (mm.group(1) or ""):
                     private_mods.add((parent, mm.group(2)))
 
-    def rust_path(n):
+    def rust_path(n, depth=0):
         d = decl_of(n)
         mod = d["file"][:-3]
         if mod.endswith("/mod"):
@@ -784,7 +861,7 @@ def generate(repo="/repo", out=None):
                 v = env.get(g, "()")
                 if v == "()" and g in DEFAULT_ENV:      # phantom parameter: any type satisfying the bounds
                     v = DEFAULT_ENV[g]
-                return tr.rust_type(v)
+                return rust_of(v, depth)
             args = "<" + ", ".join(arg_of(g) for g in real) + ">"
         if base in PATH_OVERRIDE:
             return PATH_OVERRIDE[base] + args
@@ -793,6 +870,34 @@ def generate(repo="/repo", out=None):
         while len(segs) > 1 and (tuple(segs[:-1]), segs[-1]) in private_mods:
             segs = segs[:-1]
         return "concordium_base::" + "::".join(segs) + "::" + tyname + args
+    def rust_of(v, depth=0):
+        """Rust path of a generic argument: a basic concrete name, or a translated derived type (token)."""
+        if v in CONCRETE_RUST:
+            return CONCRETE_RUST[v]
+        if v in tr.tokens and depth < 4:
+            m = re.match(r"^g_(\w+)$", tr.tokens[v][0])
+            if m and m.group(1) in tr.inst and m.group(1) not in SKIP_GLUE and decl_of(m.group(1)).get("pub", True) \
+                    and all(rust_of(x, depth + 1) for x in tr.inst[m.group(1)][1].values()):
+                return rust_path(m.group(1), depth + 1)
+        return None
+    table = [n for n in both if n not in EQUAL and n not in SKIP_GLUE and decl_of(n).get("pub", True)
+             and all(rust_of(v) for v in tr.inst[n][1].values())]
+    # two instantiations reached through different spellings of the same argument have the same Rust type: register one
+    seen_rust = {}
+    for n in list(table):
+        rp = rust_path(n)
+        if rp in seen_rust:
+            table.remove(n)
+        else:
+            seen_rust[rp] = n
+    lines.append("")
+    lines.append("(** Fully derived types (Serial and Deserial both generated) without a hand-written term: registered for the")
+    lines.append("    correspondence run under the ids below. *)")
+    lines.append("Definition gen_schema_table : list (N * schema) :=")
+    lines.append("  [%s]." % ";\n   ".join("(%d, g_%s)" % (200 + i, n) for i, n in enumerate(table)))
+    lines.append("Definition gen_all : list schema := [%s]." % "; ".join("g_" + n for n in order))
+    lines.append("Definition gen_equal_pairs : list (schema * schema) := [%s]." % "; ".join("(g_%s, %s)" % (n, EQUAL[n]) for n in sorted(EQUAL)))
+    lines.append("Definition gen_layout_pairs : list (schema * schema) := [%s]." % "; ".join("(g_%s, %s)" % (n, LAYOUT[n]) for n in sorted(LAYOUT)))
     glue = ["// GENERATED by translators/gen_chain_schemas.py - do not edit.  Schema id => Rust type for the derived types",
             "// that have a generated schema term (coq/Gen/ChainSchemas.v gen_schema_table).",
             "macro_rules! gen_types { ($m:ident) => { $m! {"]
@@ -806,7 +911,45 @@ def generate(repo="/repo", out=None):
     if not os.path.exists(out) or open(out).read() != txt:
         os.makedirs(os.path.dirname(out), exist_ok=True)
         open(out, "w").write(txt)
-    return {"translated": len(order), "fully_derived": len(both), "registered": {str(200 + i): n for i, n in enumerate(table)},
+    # ---- bare generic wrappers: schema functors + well-formedness lemmas + ties to the translated instantiations
+    plines = ["(** GENERATED by translators/gen_chain_schemas.py - do not edit.  Bare generic wrappers (every parameter is an arbitrary",
+              "    serialisable type) as schema functors [gp_<Type>], their well-formedness for EVERY well-formed argument schema (hence all",
+              "    codec laws, Chain/GenericTie.v), and the equations tying the instantiations translated in Gen/ChainSchemas.v to them. *)",
+              "From Coq Require Import NArith List Bool.",
+              "From CB Require Import Common.Codec Common.CodecProofs Chain.ChainSchemas Gen.ChainSchemas.",
+              "Import ListNotations.", "Local Open Scope N_scope.", "",
+              "Ltac gp_wf_tac := intros; cbn [schema_wf forallb andb]; repeat match goal with H : _ = true |- _ => rewrite H; clear H end; vm_compute; reflexivity.", ""]
+    pinst = {}
+    for name in sorted(parametric):
+        params, term, in_vec = parametric[name]
+        binders = " ".join("X_" + g for g in params)
+        plines.append("(* %s  %s %s<%s> *)" % (decls[name]["file"], decls[name]["kind"], name, ", ".join(params)))
+        plines.append("Definition gp_%s (%s : schema) : schema := %s." % (name, binders, term))
+        hyps = ["schema_wf X_%s = true" % g for g in params] + ["(1 <=? min_size X_%s) = true" % g for g in in_vec]
+        plines.append("Lemma gp_%s_wf : forall %s, %s -> schema_wf (gp_%s %s) = true." % (name, binders, " -> ".join(hyps), name, binders))
+        plines.append("Proof. unfold gp_%s. gp_wf_tac. Qed." % name)
+        insts = []
+        for outn in sorted(tr.done):
+            base, env = tr.inst.get(outn, (None, None))
+            if base == name:
+                args = []
+                for g in params:
+                    v = env.get(g)
+                    args.append(tr.tokens[v][0] if v in tr.tokens else tr.ty(v, {}, "gp_" + name, decls[name]["file"]))
+                insts.append((outn, "gp_%s %s" % (name, " ".join(args))))
+        pinst[name] = [o for o, _ in insts]
+        for outn, rhs in insts:
+            plines.append("Lemma g_%s_is_instance : g_%s = %s." % (outn, outn, rhs))
+            plines.append("Proof. reflexivity. Qed.")
+        plines.append("")
+    plines.append("Definition gen_param_count : nat := %d%%nat." % len(parametric))
+    ptxt = "\n".join(plines) + "\n"
+    ppath = os.path.join(os.path.dirname(out), "ChainSchemasParam.v")
+    if not os.path.exists(ppath) or open(ppath).read() != ptxt:
+        open(ppath, "w").write(ptxt)
+    return {"parametric": {n: {"params": parametric[n][0], "needs_min_size": parametric[n][2], "instances": pinst[n]} for n in sorted(parametric)},
+            "other_macro": list(OTHER_MACRO),
+            "translated": len(order), "fully_derived": len(both), "registered": {str(200 + i): n for i, n in enumerate(table)},
             "tied_equal": sorted(EQUAL), "tied_layout": sorted(LAYOUT),
             "serial_only": sorted(n for n in order if n not in both),
             "unsupported": {n: tr.errors[n] for n in sorted(tr.errors)}}
